@@ -9,6 +9,7 @@ from .. import env  # noqa: F401
 import copy
 
 import numpy as np
+import pandas as pd
 
 from .. import alphabet as A, canon, data, ops, report, statespace as S
 
@@ -77,6 +78,11 @@ def catalogue(cf, arms, is_ts):
             "pfit_ctx_wrong_columns": lambda m: m.partial_fit([a0, a1], [1, 1], copy.deepcopy(x3)),
             "pfit_ctx_wrong_columns_rev": lambda m: m.partial_fit([a1, a0], [1, 1], copy.deepcopy(x3)),
             "pfit_ctx_one_column": lambda m: m.partial_fit([a0, a1], [1, 1], [[0], [1]]),
+            # a Series with several decisions is one feature column (wrong width here); its length equals the number
+            # of decisions and the number of features of the fitted bandit
+            "pfit_ctx_series_column": lambda m: m.partial_fit([a0, a1], [1, 1], pd.Series([0.0, 1.0])),
+            "pfit_ctx_series_column_rev": lambda m: m.partial_fit([a1, a0], [1, 1], pd.Series([0.0, 1.0])),
+            "pfit_ctx_series_column_int": lambda m: m.partial_fit([a0, a1], [1, 0], pd.Series([1, 1], index=[7, 3])),
             "fit_one_row": lambda m: m.fit([a1], [1], [[0, 0]]),          # rejected under Clusters only (inside training)
             "fit_one_row_other_width": lambda m: m.fit([a1], [1], [[0, 0, 0]]),      # same, with another feature count
             "fit_other_width_nan_reward": lambda m: m.fit([a0, a1], [1, NAN], copy.deepcopy(x3)),
